@@ -63,7 +63,13 @@ def job(arg):
     for seed in seeds:
         sched = "pct" if seed % 3 == 2 else "random"
         rec = []
-        obs = PL.run_scenario(dict(sc, sched=sched), schedule_seed=seed, record=rec)
+        tracer = None
+        if sc["topo"] == "chain" and sc["processor"] == "threaded_mailbox":
+            tracer = PL.RelayTracer(("src", "pa", "pb"), sc)
+            with tracer:
+                obs = PL.run_scenario(dict(sc, sched=sched), schedule_seed=seed, record=rec, tracer=tracer)
+        else:
+            obs = PL.run_scenario(dict(sc, sched=sched), schedule_seed=seed, record=rec)
         whole = PL.whole_run(sc["topo"], sc["n"])
         rows = obs["rows"]
         msg = expected_msg(sc)
@@ -79,10 +85,73 @@ def job(arg):
                  prefix=bool(rows is not None and rows == whole[:len(rows)]))
         out.append(dict(sc=sc, seed=seed, sched=sched, o=o, detail=dict(exc=f"{obs['exc_type']}: {obs['exc_msg']}", hang=obs["hang"],
                                                                          steps=obs["steps"], nrows=None if rows is None else len(rows)),
-                        schedule=rec if (obs["hang"] or len(rec) < 400) else rec[:400]))
+                        schedule=rec if (obs["hang"] or len(rec) < 400) else rec[:400],
+                        relay=relay_record(sc, tracer, o) if tracer is not None and tracer.proc is not None else None))
         if sc["processor"] != "threaded_mailbox":
             break
     return out
+
+
+def model_fail(sc):
+    """The scenario's injected failure in the vocabulary of spec/Pipeline.tla."""
+    stages = ("src", "pa", "pb")
+    if sc["fail"]:
+        st, k = sc["fail"]
+        for pre, kind in (("save:", "saver"), ("close:", "close"), ("load:", "stage"), ("", "stage")):
+            if st.startswith(pre):
+                return [kind, stages.index(st[len(pre):]) + 1, k]
+    if sc["consumer"]:
+        return ["consumer" if sc["consumer"][0] == "raise" else "stop", 0, sc["consumer"][1] + 1]
+    return ["none", 0, 0]
+
+
+def relay_record(sc, tracer, o):
+    evs = tracer.events
+    cls = "any" if sc["consumer"] else ("returned" if o["outcome"] == "returned" else "orig" if o["orig"] else "other")
+    for e in evs:
+        e["outcome"] = cls
+    return dict(cap=sc["max_messages"], lazy=bool(sc["lazy"]), fail=model_fail(sc), saved=tracer.saved(), events=evs)
+
+
+def relay_validate(chk, results):
+    """Trace validation of the recorded chain runs against spec/Pipeline.tla (PipelineTrace.tla), one TLC run per saved set."""
+    groups = {}
+    for r in results:
+        if r.get("relay"):
+            groups.setdefault(tuple(r["relay"]["saved"]), []).append(r)
+    nok = 0
+    for saved, rs in sorted(groups.items()):
+        fails = sorted({tuple(r["relay"]["fail"]) for r in rs})
+        caps = sorted({r["relay"]["cap"] for r in rs})
+        mc = (f"---- MODULE MCT ----\nEXTENDS PipelineTrace\nFailDef == {V.to_tla(set(fails))}\nSavedDef == {V.to_tla(set(saved))}\n"
+              f"CapDef == {V.to_tla(set(caps))}\n====\n")
+        cfg = (f"SPECIFICATION TraceSpec\nCONSTANTS NS = 3 NChunks = {PL.NCHUNKS} MainKills = TRUE LazySet = {{TRUE, FALSE}}\n"
+               "CONSTANT FailSet <- FailDef\nCONSTANT Saved <- SavedDef\nCONSTANT CapSet <- CapDef\n"
+               "INVARIANT Progress\nINVARIANT EagerCap\nINVARIANT TraceEveryoneStops\nINVARIANT CallerOutcome\n"
+               "POSTCONDITION AllAccepted\nCHECK_DEADLOCK FALSE\n")
+        d = V.stage_spec(["Pipeline", "PipelineTrace"], {"MCT.tla": mc, "MCT.cfg": cfg})
+        with open(os.path.join(d, "traces.json"), "w") as f:
+            json.dump([dict(cap=r["relay"]["cap"], lazy=r["relay"]["lazy"], fail=r["relay"]["fail"], events=r["relay"]["events"]) for r in rs], f)
+        r = V.run_tlc(d, "MCT", "MCT.cfg", workers=1, timeout=3000, env={"TRACE_FILE": os.path.join(d, "traces.json")}, heap="4g")
+        chk.add_tlc(r, f"trace validation of {len(rs)} real chain runs against Pipeline.tla, saved={saved}")
+        rej = {int(a): int(b) for a, b in re.findall(r'REJECTED trace", (\d+), "at event", (\d+)', r.out)}
+        if not r.ok and not rej and not r.violated:
+            raise V.MachineryError("PipelineTrace failed to run: " + r.out[-2000:])
+        if r.violated and not rej and r.violated != "AllAccepted":
+            rej = {int(m.group(1)): -1 for m in re.finditer(r"tid = (\d+)", r.out)}
+        nok += len(rs) - len(rej)
+        for t, ev in sorted(rej.items()):
+            rr = rs[t - 1]
+            sc = rr["sc"]
+            inj = f"{sc['fail'][0]}:{sc['fail'][1]}" if sc["fail"] else (f"consumer_{sc['consumer'][0]}:{sc['consumer'][1]}" if sc["consumer"] else "none")
+            evs = rr["relay"]["events"]
+            chk.violation(f"C06:relay-trace:{'lazy' if sc['lazy'] else 'eager'}:mm{sc['max_messages']}:{inj}:rejected",
+                          f"real run of the chain ({inj}, lazy={sc['lazy']}, max_messages={sc['max_messages']}, schedule seed {rr['seed']}) is not a "
+                          f"behaviour of spec/Pipeline.tla: rejected at event {ev} of {len(evs)}"
+                          + (f" ({r.violated} violated along the trace)" if ev < 0 else f": {json.dumps(evs[ev - 1]) if 0 < ev <= len(evs) else ''}"),
+                          dict(sc=sc, seed=rr["seed"], sched=rr["sched"], relay_event=ev))
+    chk.traces += nok
+    chk.extra["relay_traces_validated"] = nok
 
 
 def which(o):
@@ -110,46 +179,53 @@ def validate(chk, results):
 
 
 def model_job(arg):
-    ns, nch, cap, lazy, saved, fail, mainkills = arg
-    mc = f"---- MODULE MC ----\nEXTENDS Pipeline\nFailDef == {V.to_tla(tuple(fail))}\nSavedDef == {V.to_tla(set(saved))}\n====\n"
-    cfg = (f"SPECIFICATION Spec\nCONSTANTS NS = {ns} NChunks = {nch} Cap = {cap} Lazy = {V.to_tla(lazy)} MainKills = {V.to_tla(mainkills)}\n"
-           "CONSTANT Fail <- FailDef\nCONSTANT Saved <- SavedDef\nINVARIANT NoDeadlock\nINVARIANT EveryoneStops\nINVARIANT CallerOutcome\n"
+    ns, nch, caps, saved, fails, mainkills = arg
+    mc = (f"---- MODULE MC ----\nEXTENDS Pipeline\nFailDef == {V.to_tla(set(tuple(f) for f in fails))}\nSavedDef == {V.to_tla(set(saved))}\n"
+          f"CapDef == {V.to_tla(set(caps))}\n====\n")
+    cfg = (f"SPECIFICATION Spec\nCONSTANTS NS = {ns} NChunks = {nch} MainKills = {V.to_tla(mainkills)} LazySet = {{TRUE, FALSE}}\n"
+           "CONSTANT FailSet <- FailDef\nCONSTANT Saved <- SavedDef\nCONSTANT CapSet <- CapDef\n"
+           "INVARIANT NoDeadlock\nINVARIANT EveryoneStops\nINVARIANT CallerOutcome\n"
            "INVARIANT EagerCap\nPROPERTY Terminates\nCHECK_DEADLOCK FALSE\n")
     d = V.stage_spec(["Pipeline"], {"MC.tla": mc, "MC.cfg": cfg})
-    r = V.run_tlc(d, "MC", "MC.cfg", workers=1, timeout=1800, heap="3g")
+    r = V.run_tlc(d, "MC", "MC.cfg", workers=4, timeout=3000, heap="3g")
     return dict(arg=arg, generated=r.generated, distinct=r.distinct, depth=r.depth, ok=r.ok, violated=r.violated or ("deadlock" if r.deadlock else None),
                 wall=r.wall, out=None if (r.ok or r.violated or r.deadlock) else r.out[-1500:])
 
 
+def fail_positions(ns, nch, saved):
+    fails = [("none", 0, 0)]
+    fails += [("stage", i, k) for i in range(1, ns + 1) for k in range(nch)]
+    fails += [("saver", i, k) for i in saved for k in range(nch)] + [("close", i, 0) for i in saved]
+    fails += [("consumer", 0, k) for k in range(1, nch + 1)] + [("stop", 0, k) for k in range(1, nch + 1)]
+    return fails
+
+
 def model_check(chk):
-    """Design level: the exception relay of the threaded processor (spec/Pipeline.tla), all schedules."""
+    """Design level: the exception relay of the threaded processor (spec/Pipeline.tla), all schedules, every failure
+    position, eager and lazy, every capacity of the tier (one TLC run per (stages, chunks, saved set))."""
     quick = chk.tier == "quick"
     work = []
     for ns, nch in ((2, 2),) if quick else ((2, 2), (3, 2), (3, 3)):
         saved_opts = [(), tuple(range(1, ns + 1))] if quick else [(), (1,), (ns,), tuple(range(1, ns + 1))]
         for saved in saved_opts:
-            for lazy in (False, True):
-                fails = [("none", 0, 0)]
-                fails += [("stage", i, k) for i in range(1, ns + 1) for k in range(nch)]
-                fails += [("saver", i, k) for i in saved for k in range(nch)] + [("close", i, 0) for i in saved]
-                fails += [("consumer", 0, k) for k in range(1, nch + 1)] + [("stop", 0, k) for k in range(1, nch + 1)]
-                for f in fails:
-                    work.append((ns, nch, 1 if quick else 2, lazy, saved, f, True))
+            work.append((ns, nch, (1, 2) if quick else (1, 2, 3), saved, fail_positions(ns, nch, saved), True))
     # vacuity guard: without the main thread's kill-all an eager pipeline must be able to hang
-    work.append((2, 4, 1, False, (1, 2), ("saver", 2, 0), False))
+    work.append((2, 4, (1,), (1, 2), [("saver", 2, 0)], False))
     res = V.pmap(model_job, work)
     for r in res:
         if r["out"]:
             raise V.MachineryError("Pipeline.tla failed to run: " + r["out"])
         chk.states += r["distinct"]
         chk.transitions += r["generated"]
-        chk.tlc_runs.append(dict(what=f"Pipeline.tla {r['arg']}", generated=r["generated"], distinct=r["distinct"], depth=r["depth"],
+        a = r["arg"]
+        chk.tlc_runs.append(dict(what=f"Pipeline.tla NS={a[0]} NChunks={a[1]} caps={a[2]} saved={a[3]} failure positions={len(a[4])} MainKills={a[5]}",
+                                 generated=r["generated"], distinct=r["distinct"], depth=r["depth"],
                                  ok=r["ok"], violated=r["violated"], wall_s=round(r["wall"], 1)))
-        if r["arg"][-1] and r["violated"]:
-            chk.extra.setdefault("design_violations", []).append(dict(config=r["arg"], violated=r["violated"]))
-        if not r["arg"][-1] and not r["violated"]:
+        if a[-1] and r["violated"]:
+            chk.extra.setdefault("design_violations", []).append(dict(config=[a[0], a[1], a[2], a[3]], violated=r["violated"]))
+        if not a[-1] and not r["violated"]:
             raise V.MachineryError("Pipeline.tla without the main thread's kill-all still satisfies every property: no teeth")
-    chk.extra["pipeline_model_configurations"] = len(work)
+    chk.extra["pipeline_model_configurations"] = sum(len(w[4]) * 2 * len(w[2]) for w in work)
 
 
 def run(chk):
@@ -160,6 +236,7 @@ def run(chk):
     work = [(sc, [chk.seed * 1000 + i for i in range(nsched)]) for sc in S]
     res = [x for out in V.pmap(job, work) for x in out]
     rejected = validate(chk, res)
+    relay_validate(chk, res)
     chk.rule = ("scenario = topology (chain, diamond, multi-output with saved / discarded side output) x processor x lazy/eager x "
                 "capacity x failure position (every stage kind: source, plugins, savers, loaders; first..last chunk) or consumer "
                 "failure / abandonment or none; threaded scenarios run under the deterministic scheduler for several seeded schedules "
@@ -194,6 +271,17 @@ def replay(chk, path):
     if sc.get("consumer"):
         sc["consumer"] = tuple(sc["consumer"])
     out = job((dict(sc), [rp["seed"]]))
+    if "relay_event" in rp:
+        n0 = len(chk.violations)
+        relay_validate(chk, out)
+        evs = out[0]["relay"]["events"] if out[0].get("relay") else []
+        rej = len(chk.violations) > n0
+        if rej:
+            ev = chk.violations[-1][2]["relay_event"]
+            for e in evs[max(0, ev - 4):ev]:
+                print("   ", json.dumps(e))
+        print(f"relay trace of {len(evs)} events ->", "rejected" if rej else "accepted")
+        return 1 if rej else 0
     bad = which(out[0]["o"])
     print(out[0]["o"], out[0]["detail"], "->", bad or "holds")
     return 1 if bad else 0
